@@ -203,10 +203,27 @@ Theorem C16_auto_is_explicit : forall num (o : NumOps num) U K minpos rj (c : sp
   (forall f, idler_focus_cfg c = Param f -> s_zi s = explicit_focus o f).
 Proof. exact auto_is_explicit. Qed.
 
+(* the STRONGER reading -- "auto" = the explicit public call on the FINISHED setup.  For the idler and the waist positions it is the
+   statement above (they are computed last, on the finished crystal).  For the crystal angle it needs that the external angle of the
+   finished signal does not depend on the crystal angle -- proved for collinear signals of the composed model
+   (C16_auto_theta_final_composed); for a non-collinear signal it is FALSE on the implementation: known finding F22. *)
+Theorem C16_auto_theta_is_final_optimum : forall num (o : NumOps num) U K minpos rj (c : spdc_cfg num) s nf,
+  try_as_spdc_steps o U K minpos rj c = Ok (s, nf) -> cc_theta_deg (c_crystal c) = Auto ->
+  (forall th, o_snell_ext K (s_signal s) (set_crystal_theta (cfg_cs0 o c) th) = o_snell_ext K (s_signal s) (cfg_cs0 o c)) ->
+  optimum_theta o K (s_crystal s) (s_signal s) (s_pump s) = Ok (cs_theta (s_crystal s)).
+Proof. exact auto_theta_is_final_optimum. Qed.
+
+Theorem C16_auto_theta_final_composed : forall index_of snell_inv sd_theta sd_period U minpos rj (c : spdc_cfg R) s nf,
+  try_as_spdc_steps R_ops U (oracles_of_model index_of snell_inv sd_theta sd_period) minpos rj c = Ok (s, nf) ->
+  cc_theta_deg (c_crystal c) = Auto -> C20_idempotent.collinear (s_signal s) ->
+  optimum_theta R_ops (oracles_of_model index_of snell_inv sd_theta sd_period) (s_crystal s) (s_signal s) (s_pump s)
+  = Ok (cs_theta (s_crystal s)).
+Proof. exact auto_theta_final_composed. Qed.
+
 (* COMPOSED with the generated / proved kernels of C03 / C04 (oracles_of_model: Model/Cfg_Composed.v): each "auto" field IS the
    value those models compute on the setup built so far -- the crystal angle is C04's optimum_theta of the composed cost (and lies
    in [0, pi/2]); an accepted automatic period is C04's optimum_poling_period (0 < |period| <= L); the automatic idler is C03's
-   optimum_idler of the final signal / pump / crystal / poling. *)
+   optimum_idler of the final signal / pump / crystal / poling, where its emission angle is defined (arg > 0, |val| <= 1). *)
 Theorem C16_auto_is_explicit_composed : forall index_of snell_inv sd_theta sd_period U rj (c : spdc_cfg R) s nf,
   try_as_spdc_steps R_ops U (oracles_of_model index_of snell_inv sd_theta sd_period) GA.opp_min_period rj c = Ok (s, nf) ->
   (cc_theta_deg (c_crystal c) = Auto ->
@@ -219,22 +236,40 @@ Theorem C16_auto_is_explicit_composed : forall index_of snell_inv sd_theta sd_pe
                  (cs_length (cfg_cs0 R_ops c)) = MA.AutoOk v /\
                s_pp s = poling_new R_ops v (apod_of_cfg R_ops a) /\ 0 < Rabs v <= cs_length (cfg_cs0 R_ops c)) /\
   (c_idler c = Auto -> beam_wf (s_signal s) -> 0 < b_wavelength (s_pump s) ->
+     idler_defined index_of (s_signal s) (s_pump s) (s_crystal s) (ipp (s_pp s)) = true ->
      exists i, MI.optimum_idler (index_of (s_crystal s)) (ipm (cs_pm (s_crystal s))) (cs_counter (s_crystal s))
                  (ib (s_signal s)) (ipump (s_pump s)) (ipp (s_pp s)) = Some i /\ ib (s_idler s) = i).
 Proof. exact auto_is_explicit_composed. Qed.
 
 (* ================================================================================================ defaults *)
+(* what an OMITTED field of the JSON text means -- for every field that may be omitted (the #[serde(default)] list read off
+   the source, each with Default::default() of its type) it is the documented value; and the serde attributes of every
+   configuration type, field and variant are exactly the pinned ones (Proofs/C16_defaults.v: serde_attributes_documented), so
+   nothing is skipped, renamed, flattened or defaulted through a function.  pump.spectrum_threshold (an Option) is covered by
+   C16_omitted_threshold. *)
 Theorem C16_defaults :
-  qlist_eqb default_numbers spec_default_numbers = true /\
+  serde_omitted_values = spec_omitted_values /\
+  map fst serde_omitted_values = map (fun f => f) (map fst (filter (fun r => String.eqb (snd r) "serde(default)") serde_attributes)) /\
   Qeq_bool default_threshold spec_spectrum_threshold = true /\
-  sig_figs_in_config = spec_config_decimals /\
+  sig_figs_in_config = spec_config_decimals.
+Proof.
+  exact (conj serde_omitted_documented (conj eq_refl (conj (proj1 default_threshold_documented) default_decimals_documented))).
+Qed.
+
+(* Default::default() of the configuration types (NOT what an omitted field means: most of these fields are required) *)
+Theorem C16_default_impls :
+  qlist_eqb default_numbers spec_default_numbers = true /\
   default_crystal_kind = "KTP"%string /\ default_pm_type = Type2_e_eo /\ default_crystal_theta_auto = true /\
   default_counter_propagation = false /\ default_signal_waist_position_auto = true /\
   default_signal_theta_external_none = true /\ default_idler_auto = true.
-Proof.
-  exact (conj default_numbers_documented (conj (proj1 default_threshold_documented)
-        (conj default_decimals_documented default_symbols_documented))).
-Qed.
+Proof. exact (conj default_numbers_documented default_symbols_documented). Qed.
+
+(* the standalone public conversions From<SPDC> for PumpConfig / SignalConfig / IdlerConfig (generated from their own source)
+   are the pump / signal / idler parts of the exported configuration, so every export theorem covers them *)
+Theorem C16_standalone_conversions : forall num (o : NumOps num) U (s : spdc num),
+  pump_as_config o U s = c_pump (as_config o U s) /\ signal_as_config o s = c_signal (as_config o U s) /\
+  Param (idler_as_config o s) = c_idler (as_config o U s).
+Proof. exact standalone_conversions. Qed.
 
 Theorem C16_omitted_threshold : forall num (o : NumOps num) U K minpos rj (c : spdc_cfg num) s nf,
   pc_threshold (c_pump c) = None -> try_as_spdc_steps o U K minpos rj c = Ok (s, nf) -> s_threshold s = nQ o spec_spectrum_threshold.
@@ -270,5 +305,9 @@ Print Assumptions C16_sigfigs_b64_away_from_ties_partial.
 Print Assumptions C16_stable.
 Print Assumptions C16_auto_is_explicit.
 Print Assumptions C16_auto_is_explicit_composed.
+Print Assumptions C16_auto_theta_is_final_optimum.
+Print Assumptions C16_auto_theta_final_composed.
 Print Assumptions C16_defaults.
+Print Assumptions C16_default_impls.
+Print Assumptions C16_standalone_conversions.
 Print Assumptions C16_omitted_threshold.
